@@ -1446,3 +1446,18 @@ func (m *Model) Dump() string {
 }
 
 var _ = sort.Strings
+
+// BytesObj is an object whose full expected content is known.
+type BytesObj []byte
+
+func (b BytesObj) Size() int64 { return int64(len(b)) }
+func (b BytesObj) ReadAt(off int64, n int) ([]byte, bool) {
+	if off >= int64(len(b)) {
+		return nil, true
+	}
+	end := off + int64(n)
+	if end > int64(len(b)) {
+		end = int64(len(b))
+	}
+	return b[off:end], true
+}
